@@ -247,6 +247,48 @@ def check_retcodes(rep, mod):
         R.check(not bad, 'igzip/igzip_inflate.c:%s' % fn, 'may return %s; documented: %s' % (bad, sorted(allowed)), key='R-RETCODES-HDR|%s' % fn, sample='%s returns %s' % (fn, sorted(map(str, rs))))
 
 
+def check_resume(rep, mod):
+    """the header readers are resumable: a switch on block_state jumps back into the field that could not be completed.  That works only
+    if the state stored when a field runs out of input is the label of the very case that reads that field."""
+    R = rep.rule('R-HDR-RESUME', 'isal_read_gzip_header / isal_read_zlib_header: in the region entered through the switch case for state S (up to the next case label), every constant stored to state->block_state '
+                 'is S itself (come back to this field) or ISAL_BLOCK_NEW_HDR (header complete); every header state of the enumeration has a case', floor=2, unit='readers')
+    off = field_offsets('struct inflate_state', ['block_state'])['block_state']
+    names = ['ISAL_BLOCK_NEW_HDR', 'ISAL_GZIP_EXTRA_LEN', 'ISAL_GZIP_EXTRA', 'ISAL_GZIP_NAME', 'ISAL_GZIP_COMMENT', 'ISAL_GZIP_HCRC', 'ISAL_ZLIB_DICT']
+    vals, drop = mirror.c_values('default', ['igzip_lib.h'], [(n, n) for n in names], 'c19_states')
+    if drop:
+        raise AnalysisBroken('header states %s not found' % drop)
+    byval = {v: k for k, v in vals.items()}
+    for fn, want in (('isal_read_gzip_header', names[:6]), ('isal_read_zlib_header', [names[0], names[6]])):
+        f = mod.funcs.get(fn)
+        if f is None:
+            raise AnalysisBroken(fn + ' not found')
+        R.instance()
+        P = irrules.prov(mod, f)
+        sws = [i for i in f.all_insns() if i.op == 'switch']
+        if len(sws) != 1:
+            raise AnalysisBroken('%s: expected one resume switch, found %d' % (fn, len(sws)))
+        cases = {int(k): v for k, v in (sws[0].extra['cases'].items() if isinstance(sws[0].extra['cases'], dict) else sws[0].extra['cases'])}
+        R.check(set(cases) == {vals[n] for n in want}, mod.where(f, sws[0]), '%s: the resume switch has cases %s, the header states are %s' % (fn, sorted(byval.get(c, c) for c in cases), want), key='R-HDR-RESUME|%s|cases' % fn,
+                sample='%s: cases %s' % (fn, [byval.get(c, c) for c in sorted(cases)]))
+        labels = set(cases.values())
+        for sval, lab in sorted(cases.items()):
+            seen = set()
+            work = [lab]
+            while work:
+                b = work.pop()
+                if b in seen:
+                    continue
+                seen.add(b)
+                for i in f.blocks[b].insns:
+                    if i.op == 'store' and ('param', 0, off) in P.atoms(i.ops[1]) and re.match(r'^\d+$', i.ops[0]):
+                        v = int(i.ops[0])
+                        R.check(v in (sval, vals['ISAL_BLOCK_NEW_HDR']), mod.where(f, i), '%s: while reading the field of state %s the reader stores block_state = %s: the next call resumes in a different field and re-reads or skips header bytes' %
+                                (fn, byval.get(sval, sval), byval.get(v, v)), key='R-HDR-RESUME|%s|%s' % (fn, byval.get(sval, sval)))
+                for s_ in f.blocks[b].succs:
+                    if s_ not in labels:
+                        work.append(s_)
+
+
 def check_field_pairing(rep, mod):
     """writer and reader are siblings over one wire format: the header structure field the writer serialises through a multi-byte
     endian helper must be the field the reader fills from the same kind of helper (a buffer-capacity field written where the
@@ -308,4 +350,5 @@ def main(tier):
     check_consts(rep, mod)
     check_retcodes(rep, mod)
     check_field_pairing(rep, mod)
+    check_resume(rep, mod)
     return rep.finish()
